@@ -1,0 +1,233 @@
+//go:build verif
+
+// Verification hooks for /verif property C15 (workflow loading): an in-process
+// loader that unmarshals a root workflow template exactly like workflow.Load and
+// runs the real ProcessTemplates with a caller-controlled sub-workflow loader, and
+// a canonical dump of the processed role tree that exposes unexported fields.
+// All names are prefixed VerifWL. Nothing here is compiled without the tag "verif".
+
+package workflow
+
+import (
+	"errors"
+	"sort"
+	"strings"
+
+	"github.com/AliceO2Group/Control/common/event"
+	"github.com/AliceO2Group/Control/common/gera"
+	"github.com/AliceO2Group/Control/common/utils/uid"
+	"github.com/AliceO2Group/Control/core/repos"
+	"gopkg.in/yaml.v3"
+)
+
+// VerifWLSubLoader returns the YAML document of the named sub-workflow template
+// (the name is the last path element of the resolved include expression, revision stripped).
+type VerifWLSubLoader func(name string) ([]byte, error)
+
+// VerifWLLoad mirrors workflow.Load up to and including ProcessTemplates:
+// root := new(aggregatorRole); root.parent = parent; yaml.Unmarshal; root.setParent(parent);
+// workflow.ProcessTemplates(repo, loadSubworkflow, baseConfigStack).
+// The repository manager / task manager parts of Load (file lookup, class refresh) are
+// replaced by subLoader and repo, which the caller controls.
+func VerifWLLoad(yamlRoot []byte, subLoader VerifWLSubLoader, repo repos.IRepo, userVars map[string]string, baseConfigStack map[string]string) (Role, error) {
+	envId := uid.New()
+	defaults := gera.MakeMap[string, string]()
+	vars := gera.MakeMap[string, string]()
+	uvars := gera.MakeMapWithMapCopy(userVars)
+	parent := NewParentAdapter(
+		func() uid.ID { return envId },
+		func() uint32 { return 0 },
+		func() gera.Map[string, string] { return defaults },
+		func() gera.Map[string, string] { return vars },
+		func() gera.Map[string, string] { return uvars },
+		func(event.Event) {},
+	)
+
+	unmarshalRoot := func(doc []byte, parent Updatable) (root *aggregatorRole, err error) {
+		root = new(aggregatorRole)
+		root.parent = parent
+		err = yaml.Unmarshal(doc, root)
+		if err != nil {
+			return nil, err
+		}
+		if parent != nil {
+			root.setParent(parent)
+		}
+		return
+	}
+
+	var loadSubworkflow LoadSubworkflowFunc = func(workflowPathExpr string, parent Updatable) (root *aggregatorRole, workflowRepo repos.IRepo, err error) {
+		if subLoader == nil {
+			return nil, nil, errors.New("verif: no sub-workflow loader")
+		}
+		name := workflowPathExpr
+		if i := strings.LastIndex(name, "@"); i >= 0 {
+			name = name[:i]
+		}
+		if i := strings.LastIndex(name, "/"); i >= 0 {
+			name = name[i+1:]
+		}
+		var doc []byte
+		doc, err = subLoader(name)
+		if err != nil {
+			return nil, nil, err
+		}
+		root, err = unmarshalRoot(doc, parent)
+		if err != nil {
+			return nil, nil, err
+		}
+		return root, repo, nil
+	}
+
+	root, err := unmarshalRoot(yamlRoot, parent)
+	if err != nil {
+		return nil, err
+	}
+	var wf Role = root
+	err = wf.ProcessTemplates(repo, loadSubworkflow, baseConfigStack)
+	if err != nil {
+		return nil, err
+	}
+	return wf, nil
+}
+
+type VerifWLTraits struct {
+	Trigger  string `json:"trigger"`
+	Await    string `json:"await"`
+	Timeout  string `json:"timeout"`
+	Critical bool   `json:"critical"`
+}
+
+type VerifWLChannel struct {
+	Name   string `json:"name"`
+	Type   string `json:"type"`
+	Target string `json:"target"`
+	Global string `json:"global"`
+	Rate   string `json:"rate"`
+}
+
+// VerifWLNode is one role of the processed tree. Iterators appear as nodes of kind
+// "iter" (their children are the expanded roles); everything else is what the role holds.
+type VerifWLNode struct {
+	Kind        string            `json:"kind"` // agg | task | call | include | iter
+	Name        string            `json:"name"`
+	Path        string            `json:"path"`
+	ParentPath  string            `json:"parentPath"`
+	Enabled     string            `json:"enabled"`
+	IsEnabled   bool              `json:"isEnabled"`
+	Traits      *VerifWLTraits    `json:"traits,omitempty"`
+	Class       string            `json:"class,omitempty"`
+	Func        string            `json:"func,omitempty"`
+	Return      string            `json:"return,omitempty"`
+	Include     string            `json:"include,omitempty"`
+	Constraints [][2]string       `json:"constraints"`    // own, after templating
+	AllConstr   [][2]string       `json:"allConstraints"` // merged with ancestors (getConstraints)
+	Connect     []VerifWLChannel  `json:"connect"`        // own
+	Bind        []VerifWLChannel  `json:"bind"`           // own
+	Defaults    map[string]string `json:"defaults"`       // this level only
+	Vars        map[string]string `json:"vars"`           // this level only
+	UserVars    map[string]string `json:"userVars"`       // this level only
+	Locals      map[string]string `json:"locals"`         // iterator variable bindings
+	Stack       map[string]string `json:"stack"`          // ConsolidatedVarStack
+	StackErr    string            `json:"stackErr,omitempty"`
+	ForVar      string            `json:"forVar,omitempty"` // iterators
+	Children    []*VerifWLNode    `json:"children"`
+}
+
+func verifWLCopyMap(m map[string]string) map[string]string {
+	out := make(map[string]string, len(m))
+	for k, v := range m {
+		out[k] = v
+	}
+	return out
+}
+
+func verifWLBase(n *VerifWLNode, rb *roleBase) {
+	n.Name = rb.Name
+	n.Path = rb.GetPath()
+	if rb.parent != nil {
+		n.ParentPath = rb.parent.GetPath()
+	}
+	n.Enabled = rb.Enabled
+	n.IsEnabled = rb.IsEnabled()
+	for _, c := range rb.Constraints {
+		n.Constraints = append(n.Constraints, [2]string{c.Attribute, c.Value})
+	}
+	for _, c := range rb.getConstraints() {
+		n.AllConstr = append(n.AllConstr, [2]string{c.Attribute, c.Value})
+	}
+	sort.Slice(n.AllConstr, func(i, j int) bool {
+		if n.AllConstr[i][0] != n.AllConstr[j][0] {
+			return n.AllConstr[i][0] < n.AllConstr[j][0]
+		}
+		return n.AllConstr[i][1] < n.AllConstr[j][1]
+	})
+	for _, c := range rb.Connect {
+		n.Connect = append(n.Connect, VerifWLChannel{Name: c.Name, Type: c.Type.String(), Target: c.Target, Rate: c.RateLogging})
+	}
+	for _, c := range rb.Bind {
+		n.Bind = append(n.Bind, VerifWLChannel{Name: c.Name, Type: c.Type.String(), Target: c.Target, Global: c.Global, Rate: c.RateLogging})
+	}
+	n.Defaults = verifWLCopyMap(rb.Defaults.Raw())
+	n.Vars = verifWLCopyMap(rb.Vars.Raw())
+	n.UserVars = verifWLCopyMap(rb.UserVars.Raw())
+	n.Locals = verifWLCopyMap(rb.Locals)
+	st, err := rb.ConsolidatedVarStack()
+	if err != nil {
+		n.StackErr = err.Error()
+	}
+	n.Stack = verifWLCopyMap(st)
+}
+
+// VerifWLDump returns the canonical dump of a (processed) role tree.
+func VerifWLDump(r Role) *VerifWLNode {
+	n := &VerifWLNode{
+		Constraints: make([][2]string, 0), AllConstr: make([][2]string, 0),
+		Connect: make([]VerifWLChannel, 0), Bind: make([]VerifWLChannel, 0),
+		Defaults: map[string]string{}, Vars: map[string]string{}, UserVars: map[string]string{},
+		Locals: map[string]string{}, Stack: map[string]string{},
+		Children: make([]*VerifWLNode, 0),
+	}
+	var children []Role
+	switch t := r.(type) {
+	case *aggregatorRole:
+		n.Kind = "agg"
+		verifWLBase(n, &t.roleBase)
+		children = t.Roles
+	case *includeRole:
+		n.Kind = "include"
+		verifWLBase(n, &t.roleBase)
+		n.Include = t.Include
+		children = t.Roles
+	case *taskRole:
+		n.Kind = "task"
+		verifWLBase(n, &t.roleBase)
+		n.Class = t.LoadTaskClass
+		n.Traits = &VerifWLTraits{t.Trigger, t.Await, t.Timeout, t.Critical}
+	case *callRole:
+		n.Kind = "call"
+		verifWLBase(n, &t.roleBase)
+		n.Func = t.FuncCall
+		n.Return = t.ReturnVar
+		n.Traits = &VerifWLTraits{t.Trigger, t.Await, t.Timeout, t.Critical}
+	case *iteratorRole:
+		n.Kind = "iter"
+		n.Name = t.GetName()
+		n.Path = t.GetPath()
+		n.IsEnabled = t.IsEnabled()
+		if t.For != nil {
+			n.ForVar = t.For.GetVar()
+		}
+		children = t.Roles
+	default:
+		n.Kind = "unknown"
+	}
+	for _, c := range children {
+		if c == nil {
+			n.Children = append(n.Children, &VerifWLNode{Kind: "nil", Children: make([]*VerifWLNode, 0)})
+			continue
+		}
+		n.Children = append(n.Children, VerifWLDump(c))
+	}
+	return n
+}
